@@ -370,11 +370,13 @@ Section Safe.
   Hypothesis Hdrops : NoDup (flat_map drops l).
   Hypothesis Hdrops_old : forall n, In n (flat_map drops l) -> In n (c_tabs c).
   (* a declared foreign key never points at a table the plan drops; its parent pre-exists,
-     or is created by a change of strictly smaller rank, or is the created table itself *)
+     or is created by a change of strictly smaller rank (or, stated directly, before it),
+     or is the created table itself *)
   Hypothesis Hfk : forall x f, In x l -> In f (added_fks x) ->
     ~ In (t_name (f_ref f)) (flat_map drops l) /\
     (In (t_name (f_ref f)) (c_tabs c) \/
-     (exists y, In y l /\ adds y = [t_name (f_ref f)] /\ r y < r x) \/
+     ((exists y, In y l /\ adds y = [t_name (f_ref f)] /\ r y < r x) \/
+      (forall pre post, l = pre ++ x :: post -> In (t_name (f_ref f)) (flat_map adds pre))) \/
      (adds x = [t_name (f_ref f)])).
   (* a modified table pre-exists or is created at a strictly smaller rank; every drop has a larger rank *)
   Hypothesis Hmod : forall t tcs, In (ModifyTable t tcs) l ->
@@ -398,8 +400,9 @@ Section Safe.
     - intros x f Hx Hf. apply (Hfk x f Hx Hf).
     - intros pre x post f El Hf.
       assert (Hx : In x l) by (rewrite El; apply in_or_app; right; left; reflexivity).
-      destruct (Hfk x f Hx Hf) as [_ [H|[[y [Hy [Ha Hr]]]|H]]]; [left; exact H| |right; right; exact H].
-      right. left. apply (adds_in_pre pre x post _ y El Hy Ha Hr).
+      destruct (Hfk x f Hx Hf) as [_ [H|[[[y [Hy [Ha Hr]]]|H]|H]]]; [left; exact H| | |right; right; exact H].
+      + right. left. apply (adds_in_pre pre x post _ y El Hy Ha Hr).
+      + right. left. apply (H pre post El).
     - intros pre t tcs post El.
       assert (Hx : In (ModifyTable t tcs) l) by (rewrite El; apply in_or_app; right; left; reflexivity).
       destruct (Hmod t tcs Hx) as [Hdr Hex]. split.
